@@ -1,5 +1,6 @@
 (* C13 -- Concurrent calls do not see each other's data.  Theorems only. *)
-From SV Require Import Lib.Base C13.Interleave C13.InterleaveProofs.
+From SV Require Import Lib.Base C13.Interleave C13.InterleaveProofs C13.Model C13.CallProofs
+  C13.SoloProofs C13.ThreadsProofs.
 
 (* ALL schedules, ANY number of threads and preemptions.  Threads are
    deterministic step programs over a shared store.  If every thread keeps to
@@ -55,3 +56,185 @@ Proof.
            (conj Hm Hi) i p r p' r' Hp Hf Hp' D).
 Qed.
 Print Assumptions drf_results.
+
+(* The sequential core of the above: for one thread, the result does not
+   depend on which memo cells happen to be filled (stores related by [sim]
+   agree on everything the thread reads except that memo cells may be empty
+   in one and filled in the other). *)
+Theorem memo_fill_is_invisible :
+  forall (loc val P : Type) (loc_eqb : loc -> loc -> bool),
+  (forall a b, loc_eqb a b = true <-> a = b) ->
+  forall (vnone : val) (memo : loc -> option val) (next : P -> @action loc val P)
+         (F : fprint loc) (Inv : P -> Prop),
+  fp_ok loc val P memo next F Inv ->
+  memo_conv loc val P loc_eqb vnone memo next F Inv ->
+  forall p s s' r, Inv p -> sim loc val vnone memo F s s' ->
+  finishes loc val P loc_eqb next p s r -> finishes loc val P loc_eqb next p s' r.
+Proof.
+  intros loc val P loc_eqb Hspec vnone memo next F Inv Hfp Hmc p s s' r.
+  apply (finishes_sim' loc val P loc_eqb Hspec vnone memo next F Inv Hfp Hmc).
+Qed.
+Print Assumptions memo_fill_is_invisible.
+
+(* ------------------------------------------------------------------ *)
+(* the step program of a suds invocation (C13/Model.v)                 *)
+(* ------------------------------------------------------------------ *)
+Local Open Scope N_scope.
+
+(* Whatever values it reads, a thread executing a piece of the invocation
+   program reads and writes only the cells computed from the program text
+   (fp_of_code), writes memo cells only with their memo value, and consults
+   memo cells only through get / compute / store, which converges. *)
+Theorem call_footprint_sound :
+  forall (mv : cloc -> N) (cd : list instr),
+    fp_ok cloc cval cstate (memo_of mv) (cnext mv) (fp_of_code cd) (fun st => incl (code st) cd)
+    /\ memo_conv cloc cval cstate cloc_eqb VNone (memo_of mv) (cnext mv) (fp_of_code cd)
+                 (fun st => incl (code st) cd).
+Proof. intros mv cd. split; [apply call_fp_ok|apply call_memo_conv]. Qed.
+Print Assumptions call_footprint_sound.
+
+(* The write footprint of an invocation through client c with a MultiRef
+   object of its own is inside [declared_W c] -- the set the harness compares
+   the MEASURED writes of real invocations with (fp_agrees): the two message
+   slots of c, memo cells, the private MultiRef object. *)
+Theorem call_writes_declared :
+  forall k l, call_wf k = true -> fresh_base <= c_mr k ->
+    fW (fp_of_code (call_code k)) l = true -> declared_W (c_client k) l = true.
+Proof. exact call_writes_declared_l. Qed.
+Print Assumptions call_writes_declared.
+
+(* Alone, from any store whose memo cells are empty or correctly filled, an
+   invocation completes with: the request built from its own arguments and
+   its client's options; body.children = the roots of its own reply; every
+   href bound by its own reply's ids; the memo values -- replies with any
+   number of children, any number of memo lookups. *)
+Theorem call_solo_result :
+  forall mv k s, call_wf k = true -> mok cloc cval VNone (memo_of mv) s ->
+    finishes cloc cval cstate cloc_eqb (cnext mv) (init_state (TCall k)) s
+             (expected mv (s (LOpt (c_client k))) k).
+Proof. exact call_solo_result_l. Qed.
+Print Assumptions call_solo_result.
+
+(* THE PROPERTY ON THE MODEL.  Any number of threads -- invocations through
+   any clients, plus set_options threads -- such that no two invocations use
+   the same MultiRef object and options are only set on clients nobody is
+   calling through (threads_ok), under ANY schedule (any number of
+   preemptions, at every step): every invocation can still complete, and
+   whenever it has completed it returns what it returns alone: its own
+   request, the value of its own reply. *)
+Theorem calls_noninterference :
+  forall mv ts s0 sched, threads_ok ts -> mok cloc cval VNone (memo_of mv) s0 ->
+  forall i k, nth_error ts i = Some (TCall k) ->
+    (exists p', nth_error (snd (cexec mv sched (s0, map init_state ts))) i = Some p'
+       /\ finishes cloc cval cstate cloc_eqb (cnext mv) p'
+                   (fst (cexec mv sched (s0, map init_state ts)))
+                   (expected mv (s0 (LOpt (c_client k))) k))
+    /\ (forall p' r', nth_error (snd (cexec mv sched (s0, map init_state ts))) i = Some p' ->
+         cnext mv p' = ADone r' -> r' = expected mv (s0 (LOpt (c_client k))) k).
+Proof.
+  intros mv ts s0 sched Ok M i k Hi. split.
+  - apply calls_noninterference_l; assumption.
+  - intros p' r'. apply calls_results_l; assumption.
+Qed.
+Print Assumptions calls_noninterference.
+
+(* The code as it is now: Binding.get_reply creates a MultiRef per reply, so
+   the objects are pairwise different (NoDup) whatever clients, services and
+   ports the calls go through: the footprint condition holds, and every call
+   returns the value of its own reply under every schedule. *)
+Theorem multiref_per_call_safe :
+  forall mv calls, NoDup (map c_mr calls) -> (forall k, In k calls -> call_wf k = true) ->
+    threads_ok (map TCall calls)
+    /\ forall s0 sched i k p' r', mok cloc cval VNone (memo_of mv) s0 ->
+         nth_error calls i = Some k ->
+         nth_error (snd (cexec mv sched (s0, map init_state (map TCall calls)))) i = Some p' ->
+         cnext mv p' = ADone r' -> r' = expected mv (s0 (LOpt (c_client k))) k.
+Proof.
+  intros mv calls ND Wf. pose proof (per_call_threads_ok calls ND Wf) as Ok. split; [exact Ok|].
+  intros s0 sched i k p' r' M Hi Hp D.
+  apply (calls_results_l mv (map TCall calls) s0 sched Ok M i k p' r'); try assumption.
+  rewrite nth_error_map, Hi. reflexivity.
+Qed.
+Print Assumptions multiref_per_call_safe.
+
+(* The code before ef3e1e2: ONE MultiRef object on the binding shared by all
+   calls through a service.  Same program, same c_mr: there is a schedule of
+   two well-formed calls through one client after which the first returns
+   the nodes of the second call's reply.  (threads_ok fails exactly on
+   c_mr kA <> c_mr kB.)  The harness replays this schedule on real threads:
+   finding key C13:shared-multiref-state, status fixed. *)
+Theorem multiref_shared_refuted :
+  exists kA kB sched stA rq f m,
+    c_mr kA = c_mr kB /\ c_client kA = c_client kB
+    /\ call_wf kA = true /\ call_wf kB = true
+    /\ nth_error (snd (cexec default_mv sched
+                         (store0, [init_state (TCall kA); init_state (TCall kB)]))) 0 = Some stA
+    /\ cnext default_mv stA = ADone (VResult rq (own_roots (c_children kB)) f m)
+    /\ own_roots (c_children kB) <> own_roots (c_children kA).
+Proof. exact multiref_shared_refuted_l. Qed.
+Print Assumptions multiref_shared_refuted.
+
+(* Clones.  A clone is another client number: it shares every schema / WSDL
+   cell (and so the memo caches) but has its own option and message cells.
+   Setting options on it while calls run through other clients -- at any
+   point of any schedule -- changes none of their requests or results. *)
+Theorem clone_independent :
+  forall mv calls c v, NoDup (map c_mr calls) -> (forall k, In k calls -> call_wf k = true) ->
+    (forall k, In k calls -> c_client k <> c) ->
+    forall s0 sched i k p' r', mok cloc cval VNone (memo_of mv) s0 ->
+      nth_error calls i = Some k ->
+      nth_error (snd (cexec mv sched (s0, map init_state (TSetOpt c v :: map TCall calls)))) (S i) = Some p' ->
+      cnext mv p' = ADone r' -> r' = expected mv (s0 (LOpt (c_client k))) k.
+Proof.
+  intros mv calls c v ND Wf Hc s0 sched i k p' r' M Hi Hp D.
+  apply (calls_results_l mv (TSetOpt c v :: map TCall calls) s0 sched
+           (setopt_threads_ok calls c v ND Wf Hc) M (S i) k p' r'); try assumption.
+  cbn. rewrite nth_error_map, Hi. reflexivity.
+Qed.
+Print Assumptions clone_independent.
+
+(* what clone() does to the store of the model: the clone starts with the
+   original's option values and an empty message history; nothing else --
+   in particular nothing of the original -- changes *)
+Theorem clone_keeps_original :
+  forall orig fresh s,
+    clone_model orig fresh s (LOpt fresh) = s (LOpt orig)
+    /\ clone_model orig fresh s (LMsgTx fresh) = VNone
+    /\ clone_model orig fresh s (LMsgRx fresh) = VNone
+    /\ (forall l, l <> LOpt fresh -> l <> LMsgTx fresh -> l <> LMsgRx fresh ->
+        clone_model orig fresh s l = s l).
+Proof. exact clone_model_spec. Qed.
+Print Assumptions clone_keeps_original.
+
+(* ---- non-vacuity ---- *)
+Example store0_memo_ok : mok cloc cval VNone (memo_of default_mv) store0.
+Proof. intros x mx H. left. destruct x; cbn in H; try discriminate; reflexivity. Qed.
+
+(* the hypotheses are satisfiable and the conclusion is about real runs: the
+   two witness calls with MultiRef objects of their own satisfy threads_ok,
+   and under the very schedule that breaks the shared variant both return the
+   value of their own reply *)
+Definition nv_calls := [mkcall 0 (fresh_base + 0) 1 [LResolved 3 true] [LFactory 4] wit_chA;
+                        mkcall 0 (fresh_base + 1) 2 [LResolved 3 true] [LFactory 4] wit_chB].
+Example calls_nonvacuous :
+  threads_ok (map TCall nv_calls)
+  /\ map (result_of default_mv)
+         (snd (cexec default_mv wit_sched (store0, map init_state (map TCall nv_calls))))
+     = map (fun k => Some (expected default_mv (store0 (LOpt (c_client k))) k)) nv_calls.
+Proof.
+  split.
+  - apply per_call_threads_ok.
+    + vm_compute. repeat constructor; cbn; intuition discriminate.
+    + intros k [<-|[<-|[]]]; reflexivity.
+  - vm_compute. reflexivity.
+Qed.
+
+(* the memo pattern is really exercised: both witness threads miss the same
+   cell and both fill it *)
+Example memo_race_nonvacuous :
+  let final := cexec default_mv (repeat 0%nat 3 ++ repeat 1%nat 40 ++ repeat 0%nat 40)
+                     (store0, map init_state (map TCall nv_calls)) in
+  fst final (LResolved 3 true) = VNum (default_mv (LResolved 3 true))
+  /\ map (result_of default_mv) (snd final)
+     = map (fun k => Some (expected default_mv (store0 (LOpt (c_client k))) k)) nv_calls.
+Proof. vm_compute. split; reflexivity. Qed.
